@@ -88,7 +88,14 @@ static void vec_case(Tape& t, Ctx& c, const char* kind, Mk mk, int maxn)
   case OP_MINABS: sres = (long double)r.min_abs_element(); scalar = true; break;
   case OP_MAX: sres = (long double)r.max_element(); scalar = true; break;
   case OP_MIN: sres = (long double)r.min_element(); scalar = true; break;
-  case OP_COPY: r.copy(X); break;
+  case OP_COPY: r.copy(X);
+    // the mixed-type routes flat <- composed (DenseVector::copy(VT) -> set_vec) and composed <- flat (DenseVector::copy_inv(VT) -> set_vec_inv)
+    if constexpr(!std::is_same<V, DenseVector<DT, typename V::IndexType>>::value) { if(N > 0) {
+      typedef DenseVector<DT, typename V::IndexType> FV; std::vector<long double> fa, fb;
+      FV f((Index)N); f.format(DT(-777)); f.copy(X); vflat(f, fa); vflat(X, fb); VF_CHECK(fa == fb, "DenseVector::copy(" << kind << "): the flat vector differs from the flattened source");
+      V tgt = mk(n); { std::vector<double> fill((size_t)N, -777.0); vfill_all(tgt, fill); } FV g((Index)N); vfill_all(g, yv); g.copy_inv(tgt); fa.clear(); fb.clear(); vflat(tgt, fa); vflat(g, fb);
+      for(long q = 0; q < N; ++q) VF_CHECK(fa[(size_t)q] == fb[(size_t)q], "DenseVector::copy_inv(" << kind << "): flat entry " << q << " of the target is " << (double)fa[(size_t)q] << ", the source holds " << (double)fb[(size_t)q]); } }
+    break;
   case OP_FORMAT: r.format(alpha); break;
   case OP_CLONE: { V cl = r.clone(CloneMode::Deep); std::string a, b; vbytes(r, a); vbytes(cl, b); VF_CHECK(a == b, "deep clone differs from its source"); VF_CHECK(vsize(cl) == N, "clone has a different size");
                    // value independence
